@@ -347,6 +347,23 @@ def rule_i(repo, chk):
     chk.ob('C04.i', ok, inner, 'doctest completions come from a nested Completion.complete() (same guarantees)')
 
 
+def rule_k(repo, chk):
+    chk.clause('C04.k', 'the seen-set of filter_names holds only keys of completions that were offered: a candidate that is dropped after the '
+                        'de-duplication test (a name bound by `del`) must not register its key, or a later definition of the same name is '
+                        'taken for a duplicate and the name is never offered')
+    f = repo.find(COMP, 'filter_names')
+    c = cfg_of(f)
+    adds = [n for n in c.nodes if n.kind == 'stmt' and isinstance(n.ast, ast.Expr) and isinstance(n.ast.value, ast.Call)
+            and call_name(n.ast.value) == 'add' and norm(n.ast.value.func.value) == 'comp_dct']
+    chk.floor('C04.k', len(adds), 1, 'comp_dct.add in filter_names')
+    ys = {n.id for y in own_nodes(f) if isinstance(y, ast.Yield) for n in c.nodes_containing(y)}
+    heads = {n.id for n in c.nodes if n.kind == 'for'}
+    for a in adds:
+        p_ = c.reach([a], lambda n: n.id in heads or n is c.exit, block_node=lambda n: n.id in ys, kinds={'n', 'T', 'F'})
+        chk.ob('C04.k', p_ is None, a.ast, 'once a key is registered the completion is yielded in the same iteration (no path from comp_dct.add to the next candidate '
+               'that skips the yield)', 'path: %s' % c.describe(p_) if p_ else '')
+
+
 def rule_j(repo, chk):
     chk.clause('C04.j', 'instance attributes: the self-attribute filter keeps every definition `<receiver>.x = ...` between the class\'s start and end '
                         'whose receiver resolves to the first parameter of a function of this class (decided by goto alone: closures nested in '
@@ -388,4 +405,4 @@ def describe(chk):
                   'case-variant handling beyond the lower-casing of both sides')
 
 
-RULES = [('C04.a', rule_a), ('C04.b', rule_b), ('C04.c', rule_c), ('C04.d', rule_d), ('C04.e', rule_e), ('C04.f', rule_f), ('C04.g', rule_g), ('C04.h', rule_h), ('C04.i', rule_i), ('C04.j', rule_j)]
+RULES = [('C04.a', rule_a), ('C04.b', rule_b), ('C04.c', rule_c), ('C04.d', rule_d), ('C04.e', rule_e), ('C04.f', rule_f), ('C04.g', rule_g), ('C04.h', rule_h), ('C04.i', rule_i), ('C04.j', rule_j), ('C04.k', rule_k)]
